@@ -137,9 +137,12 @@ package flags
 // convert.go (assumed for now)
 // ===================================================================
 
+// (a custom Unmarshaler is trusted not to answer with a typed-nil *Error nor
+// with the parser's own "unknown flag" error)
 //@ assumed func convert(val string, retval reflect.Value, options multiTag) (err error)
 //@   traced
 //@   ensures is(err, *Error) ==> as(err, *Error) != nil
+//@   ensures !isTyped(err, ErrUnknownFlag)
 
 // ===================================================================
 // parser.go: parseState
@@ -240,12 +243,11 @@ package flags
 //@ assumed func (x *multiTag) Get(key string) (r string)
 //@   pure
 //@ assumed func (option *Option) empty()
-//@ assumed func (option *Option) Set(value *string) (err error)
 //@   traced
-//@   requires option != nil
-//@   ensures option.isSet && option.preventDefault && !option.clearReferenceBeforeSet
+//@ assumed func (option *Option) call(value *string) (err error)
+//@   traced
 //@   ensures is(err, *Error) ==> as(err, *Error) != nil
-//@   assigns option.isSet, option.preventDefault, option.clearReferenceBeforeSet
+//@   ensures !isTyped(err, ErrUnknownFlag)
 //@ assumed func (p *Parser) marshalError(option *Option, err error) (e *Error)
 //@   ensures e != nil && e.Type == ErrMarshal
 
@@ -276,6 +278,7 @@ package flags
 //@   loop 1 invariant ncalls(Option.Set) == old(ncalls(Option.Set)) + idx_1 && same(s.args, old(s.args)) && s.arg == old(s.arg)
 //@   loop 1 invariant forall(k, 0, idx_1, callarg(Option.Set, old(ncalls(Option.Set)) + k, 0) == option && callarg(Option.Set, old(ncalls(Option.Set)) + k, 1) != nil && *callarg(Option.Set, old(ncalls(Option.Set)) + k, 1) == option.OptionalValue[k])
 //@   loop 1 invariant idx_1 > 0 ==> err == nil
+//@   loop 1 invariant nfails(convert) == old(nfails(convert)) && !isTyped(err, ErrUnknownFlag)
 //@   loop 1 invariant is(err, *Error) ==> as(err, *Error) != nil
 //@   ensures[C01,C04] !ca && argument != nil ==> isTyped(err, ErrNoArgumentForBool) && ncalls(Option.Set) == n0 && same(s.args, old(s.args)) && s.arg == old(s.arg)
 //@   ensures[C01] !ca && argument == nil ==> ncalls(Option.Set) == n0 + 1 && callarg(Option.Set, n0, 0) == option && callarg(Option.Set, n0, 1) == nil && same(s.args, old(s.args)) && s.arg == old(s.arg)
@@ -292,6 +295,8 @@ package flags
 //@   ensures[C02,C04] ca && argument == nil && !takes && !option.OptionalArgument ==> isTyped(err, ErrExpectedArgument) && ncalls(Option.Set) == n0
 //@   ensures[C04] err != nil ==> is(err, *Error) && as(err, *Error) != nil
 //@   ensures[C03] same(s.args, old(s.args)) || (len(old(s.args)) > 0 && same(s.args, old(s.args)[1:]))
+//@   ensures[C09,C11] err == nil ==> nfails(convert) == old(nfails(convert))
+//@   ensures[C07] !isTyped(err, ErrUnknownFlag)
 //@   assigns s.arg, s.args, Option.isSet, Option.preventDefault, Option.clearReferenceBeforeSet
 
 // Ghost rune sequence of a string (maintained by the engine at every range
@@ -308,7 +313,7 @@ package flags
 //@   traced
 //@   requires p != nil && s != nil && longOK(s.lookup.longNames)
 //@   ensures[C07] s.lookup.longNames[name] != nil ==> longNameOf(s.lookup.longNames[name]) == name
-//@   ensures[C07,C04] s.lookup.longNames[name] == nil ==> isTyped(err, ErrUnknownFlag) && ncalls(Option.Set) == old(ncalls(Option.Set)) && same(s.args, old(s.args)) && s.arg == old(s.arg)
+//@   ensures[C07,C04] s.lookup.longNames[name] == nil ==> isTyped(err, ErrUnknownFlag) && ncalls(Option.Set) == old(ncalls(Option.Set)) && same(s.args, old(s.args)) && s.arg == old(s.arg) && nfails(convert) == old(nfails(convert))
 //@   like Parser.parseOption(p, s, name, s.lookup.longNames[name], !s.lookup.longNames[name].OptionalArgument, argument) when s.lookup.longNames[name] != nil
 //@   assigns s.arg, s.args, Option.isSet, Option.preventDefault, Option.clearReferenceBeforeSet
 
@@ -340,6 +345,7 @@ package flags
 //@   loop 1 invariant forall(j, 0, cnt_1, shortOpt(s, optname, j) != nil)
 //@   loop 1 invariant same(s.args, old(s.args)) || (len(old(s.args)) > 0 && same(s.args, old(s.args)[1:]))
 //@   loop 1 invariant idx_1 < len(optname) ==> same(s.args, old(s.args))
+//@   loop 1 invariant nfails(convert) == old(nfails(convert))
 //@   loop 1 invariant a == nil && forall(j, 0, cnt_1, isFlag(shortOpt(s, optname, j))) ==> ncalls(Option.Set) == old(ncalls(Option.Set)) + cnt_1 && same(s.args, old(s.args)) && s.arg == old(s.arg)
 //@   loop 1 invariant a == nil && forall(j, 0, cnt_1, isFlag(shortOpt(s, optname, j))) ==> forall(j, 0, cnt_1, callarg(Option.Set, old(ncalls(Option.Set)) + j, 0) == shortOpt(s, optname, j) && callarg(Option.Set, old(ncalls(Option.Set)) + j, 1) == nil)
 //@   ensures[C07,C04] len(on) > 0 && shortOpt(s, on, 0) == nil ==> isTyped(err, ErrUnknownFlag) && ncalls(Option.Set) == n0 && same(s.args, old(s.args)) && s.arg == old(s.arg)
@@ -348,6 +354,7 @@ package flags
 //@   ensures[C02] a == nil && err == nil && forall(j, 0, nrunes(on), isFlag(shortOpt(s, on, j))) ==> forall(j, 0, nrunes(on), callarg(Option.Set, n0 + j, 0) == shortOpt(s, on, j) && callarg(Option.Set, n0 + j, 1) == nil)
 //@   ensures[C04] err != nil ==> is(err, *Error) && as(err, *Error) != nil
 //@   ensures[C03] len(s.args) <= len(old(s.args))
+//@   ensures[C09,C11] err == nil || isTyped(err, ErrUnknownFlag) ==> nfails(convert) == old(nfails(convert))
 //@   ensures[C07] len(on) > 0 && shortOpt(s, on, 0) != nil ==> string(shortOpt(s, on, 0).ShortName) == string(runeAt(on, 0))
 //@   assigns s.arg, s.args, Option.isSet, Option.preventDefault, Option.clearReferenceBeforeSet
 
@@ -415,10 +422,6 @@ package flags
 //@ assumed func (c *completion) complete(args []string) (r []Completion)
 //@ assumed func (c *completion) print(items []Completion, showDescriptions bool)
 //@   traced
-//@ assumed func (option *Option) clearDefault() (err error)
-//@   traced
-//@   ensures is(err, *Error) ==> as(err, *Error) != nil
-//@   assigns Option.isSet, Option.isSetDefault, Option.preventDefault, Option.clearReferenceBeforeSet
 //@ assumed func (p *parseState) checkRequired(parser *Parser) (err error)
 //@   traced
 //@   ensures err != nil ==> p.err == err && isTyped(err, ErrRequired)
@@ -459,6 +462,7 @@ package flags
 //@   loop 2 invariant forall(k, old(ncalls(Parser.parseShort)), ncalls(Parser.parseShort), okResult(p, callres(Parser.parseShort, k, 0)))
 //@   loop 2 decreases len(s.args)
 //@   loop 3 invariant s != nil && s.command != nil
+//@   loop 3 invariant s.err == nil ==> nfails(convert) == old(nfails(convert))
 //@   loop 3 invariant is(s.err, *Error) ==> as(s.err, *Error) != nil
 //@   ensures[C09] ncalls(Commander.Execute) + ncalls(Parser.CommandHandler) <= e0 + h0 + 1
 //@   ensures[C09] compl || p.internalError != nil ==> ncalls(Commander.Execute) == e0 && ncalls(Parser.CommandHandler) == h0
@@ -690,3 +694,101 @@ package flags
 //@   ensures[C02] option.isValueValidator() != nil ==> err == option.isValueValidator().IsValidValue(arg)
 //@   ensures is(err, *Error) ==> as(err, *Error) != nil
 //@   assigns nothing
+
+
+// ===================================================================
+// option.go: Set, defaults and the four bookkeeping flags
+// ===================================================================
+
+//@ assumed func strings.Join(elems []string, sep string) (r string)
+//@   pure
+//@ assumed func strings.Split(s string, sep string) (r []string)
+//@   pure
+//@   ensures len(r) >= 1
+//@ assumed func os.LookupEnv(key string) (value string, ok bool)
+//@   pure
+
+//@ pure func inChoices(o *Option, v string) bool = exists(i, 0, len(o.Choices), o.Choices[i] == v)
+//@ pure func clearsFirst(o *Option) bool = (o.value.Type().Kind() == reflect.Map || o.value.Type().Kind() == reflect.Slice) && o.clearReferenceBeforeSet
+
+// Set: one occurrence of the option with textual value *value (nil: none).
+// The field is emptied first iff it is a slice/map and this is the first Set
+// since clearReferenceBeforeSet was raised; then either the callback is called
+// or the value is converted into the field - exactly once, unless a declared
+// choice list rejects the value.
+//@ func (option *Option) Set(value *string) (err error)
+//@   props C01 C05 C11 C04
+//@   traced
+//@   requires option != nil
+//@   let e0 := ncalls(Option.empty)
+//@   let c0 := ncalls(convert)
+//@   let k0 := ncalls(Option.call)
+//@   let clears := clearsFirst(option)
+//@   let rejected := len(option.Choices) != 0 && value != nil && !inChoices(option, *value)
+//@   loop 1 invariant found == exists(i, 0, idx_1, option.Choices[i] == *value)
+//@   ensures[C05] option.isSet && option.preventDefault && !option.clearReferenceBeforeSet
+//@   ensures[C01,C05] ncalls(Option.empty) == e0 + ite(clears, 1, 0) && (clears ==> callarg(Option.empty, e0, 0) == option)
+//@   ensures[C11] rejected ==> isTyped(err, ErrInvalidChoice) && ncalls(convert) == c0 && ncalls(Option.call) == k0
+//@   ensures[C01,C11] !rejected && option.isFunc() ==> ncalls(Option.call) == k0 + 1 && ncalls(convert) == c0 && callarg(Option.call, k0, 0) == option && callarg(Option.call, k0, 1) == value && err == callres(Option.call, k0, 0)
+//@   ensures[C01,C11] !rejected && !option.isFunc() ==> ncalls(convert) == c0 + 1 && ncalls(Option.call) == k0 && callarg(convert, c0, 0) == ite(value != nil, *value, "") && callarg(convert, c0, 1) == option.value && err == callres(convert, c0, 0)
+//@   ensures[C04] is(err, *Error) ==> as(err, *Error) != nil
+//@   ensures[C09,C11] err == nil ==> nfails(convert) == old(nfails(convert))
+//@   ensures[C07] !isTyped(err, ErrUnknownFlag)
+//@   assigns option.isSet, option.preventDefault, option.clearReferenceBeforeSet
+
+//@ func (option *Option) setDefault(value *string) (err error)
+//@   props C05 C04
+//@   requires option != nil
+//@   ensures[C05] old(option.preventDefault) ==> err == nil && ncalls(Option.Set) == old(ncalls(Option.Set)) && option.isSet == old(option.isSet) && option.isSetDefault == old(option.isSetDefault) && option.preventDefault && option.clearReferenceBeforeSet == old(option.clearReferenceBeforeSet)
+//@   ensures[C05] !old(option.preventDefault) ==> ncalls(Option.Set) == old(ncalls(Option.Set)) + 1 && callarg(Option.Set, old(ncalls(Option.Set)), 0) == option && callarg(Option.Set, old(ncalls(Option.Set)), 1) == value && err == callres(Option.Set, old(ncalls(Option.Set)), 0)
+//@   ensures[C05] !old(option.preventDefault) && err == nil ==> option.isSet && option.isSetDefault && !option.preventDefault && !option.clearReferenceBeforeSet
+//@   ensures[C05] !old(option.preventDefault) && err != nil ==> option.isSet && option.preventDefault && option.isSetDefault == old(option.isSetDefault)
+//@   ensures[C04] is(err, *Error) ==> as(err, *Error) != nil
+//@   ensures[C09,C11] err == nil ==> nfails(convert) == old(nfails(convert))
+//@   assigns option.isSet, option.isSetDefault, option.preventDefault, option.clearReferenceBeforeSet
+
+//@ func (option *Option) EnvKeyWithNamespace() (r string)
+//@   props C05 C16 C04
+//@   pure
+//@   requires option != nil
+//@   requires use(wf_option, option)
+//@   loop 1 invariant g != nil && use(wf_group, g) && unfold(parserOf(g)) && parserOf(g) == parserOf(option.group)
+//@   loop 1 decreases gdepth(g)
+//@   loop 2 invariant namespaceDelimiter == parserOf(option.group).EnvNamespaceDelimiter
+//@   loop 2 invariant (g != nil ==> use(wf_group, g)) && unfold(envName(g, namespaceDelimiter, key))
+//@   loop 2 invariant envName(g, namespaceDelimiter, key) == envName(option.group, namespaceDelimiter, option.EnvDefaultKey)
+//@   loop 2 decreases ite(g == nil, 0, gdepth(g) + 1)
+//@   ensures[C05] len(option.EnvDefaultKey) == 0 ==> r == ""
+//@   ensures[C05] len(option.EnvDefaultKey) != 0 ==> r == envName(option.group, parserOf(option.group).EnvNamespaceDelimiter, option.EnvDefaultKey)
+//@   assigns nothing
+
+// The values clearDefault applies when nothing prevented defaults: the
+// environment variable (split on the delimiter when one is declared) if its
+// key is non-empty and it is set, else the default tags.
+//@ pure func envKeyOf(o *Option) string = ite(len(o.EnvDefaultKey) == 0, "", envName(o.group, parserOf(o.group).EnvNamespaceDelimiter, o.EnvDefaultKey))
+//@ pure func envApplies(o *Option) bool = envKeyOf(o) != "" && snd(os.LookupEnv(envKeyOf(o)))
+//@ pure func usedDefaults(o *Option) []string = ite(envApplies(o), ite(o.EnvDefaultDelim != "", strings.Split(fst(os.LookupEnv(envKeyOf(o))), o.EnvDefaultDelim), []string{fst(os.LookupEnv(envKeyOf(o)))}), o.Default)
+
+//@ assumed func reflect.Value.IsNil(v reflect.Value) (r bool)
+//@   pure
+
+//@ func (option *Option) clearDefault() (err error)
+//@   props C05 C04
+//@   traced
+//@   requires option != nil
+//@   let s0 := ncalls(Option.Set)
+//@   let e0 := ncalls(Option.empty)
+//@   let used := usedDefaults(option)
+//@   loop 1 invariant ncalls(Option.Set) == old(ncalls(Option.Set)) + idx_1 && ncalls(Option.empty) >= old(ncalls(Option.empty)) + 1 && callarg(Option.empty, old(ncalls(Option.empty)), 0) == option
+//@   loop 1 invariant forall(k, 0, idx_1, callarg(Option.Set, old(ncalls(Option.Set)) + k, 0) == option && callarg(Option.Set, old(ncalls(Option.Set)) + k, 1) != nil && *callarg(Option.Set, old(ncalls(Option.Set)) + k, 1) == usedDefault[k])
+//@   loop 1 invariant nfails(convert) == old(nfails(convert))
+//@   loop 1 invariant option.isSetDefault && (idx_1 > 0 ==> option.isSet && !option.preventDefault && !option.clearReferenceBeforeSet) && (idx_1 == 0 ==> !option.preventDefault)
+//@   ensures[C05] old(option.preventDefault) ==> err == nil && ncalls(Option.Set) == s0 && ncalls(Option.empty) == e0 && option.isSet == old(option.isSet) && option.isSetDefault == old(option.isSetDefault) && option.preventDefault
+//@   ensures[C05] !old(option.preventDefault) ==> option.isSetDefault
+//@   ensures[C05] !old(option.preventDefault) && len(used) > 0 ==> ncalls(Option.empty) >= e0 + 1 && callarg(Option.empty, e0, 0) == option && ncalls(Option.Set) <= s0 + len(used) && (err == nil ==> ncalls(Option.Set) == s0 + len(used))
+//@   ensures[C05] !old(option.preventDefault) && len(used) > 0 ==> forall(k, 0, ncalls(Option.Set) - s0, callarg(Option.Set, s0 + k, 0) == option && callarg(Option.Set, s0 + k, 1) != nil && *callarg(Option.Set, s0 + k, 1) == used[k])
+//@   ensures[C05] !old(option.preventDefault) && len(used) == 0 ==> err == nil && ncalls(Option.Set) == s0 && option.isSet == old(option.isSet)
+//@   ensures[C04] is(err, *Error) ==> as(err, *Error) != nil
+//@   ensures[C09,C11] err == nil ==> nfails(convert) == old(nfails(convert))
+//@   ensures[C09,C11] err == nil ==> nfails(convert) == old(nfails(convert))
+//@   assigns option.isSet, option.isSetDefault, option.preventDefault, option.clearReferenceBeforeSet
